@@ -80,9 +80,10 @@ def Node.id : Node → Nat
   | .str i _ _ => i
   | .tag i _ _ => i
 
-/-- `PageElement._is_xml` (element.py:467-488) of a tag whose parent's `_is_xml` is `inh` (for a parentless tag `inh` is
-    `getattr(self, "is_xml", False)`: `None` for a plain `Tag` — `Tag.__getattr__` turns the lookup into `find("is_xml")` —
-    and the builder's flag for a `BeautifulSoup`) -/
+/-- `PageElement._is_xml` (element.py:467-495) of a tag whose parent's `_is_xml` is `inh`. For a parentless element `inh`
+    is the fallback `bool(vars(element).get("is_xml", False))`: the builder's flag for a `BeautifulSoup`, `False` for a plain
+    `Tag` or string (before /repo 59fbf52 `getattr(tag, "is_xml", False)` was `Tag.__getattr__`, i.e. `find("is_xml")`, and
+    gave `None`; the model keeps `Option Bool` so that both readings are inputs) -/
 def isXml (inh : Option Bool) (d : TagData) : Option Bool :=
   match d.st.knownXml with
   | some b => some b
